@@ -174,22 +174,16 @@ impl Literal {
                 if struct_name1 == struct_name2 =>
             {
                 if let Some(struct_def) = checked.struct_defs.get(struct_name1) {
-                    if struct_def.fields.len() == fields.len() {
-                        let mut struct_def_fields = HashMap::with_capacity(fields.len());
-                        for (field_name, field_type) in struct_def.fields.iter() {
-                            struct_def_fields.insert(field_name, field_type);
-                        }
-                        for (field_name, field_literal) in fields.iter() {
-                            if let Some(expected_type) = struct_def_fields.get(field_name) {
-                                if !field_literal.is_of_type(checked, expected_type) {
-                                    return false;
-                                }
-                            } else {
-                                return false;
-                            }
-                        }
-                        return true;
-                    }
+                    // `as_bits` encodes the fields in the order of the literal, the circuit
+                    // expects them in the order of the definition (sorted by name): every
+                    // field must be given exactly once, in that order.
+                    return struct_def.fields.len() == fields.len()
+                        && fields.iter().zip(struct_def.fields.iter()).all(
+                            |((field_name, field_literal), (expected_name, expected_type))| {
+                                field_name == expected_name
+                                    && field_literal.is_of_type(checked, expected_type)
+                            },
+                        );
                 }
                 false
             }
